@@ -19,6 +19,7 @@ CONFIG = {
     "C12": dict(gen=["Models"], drivers=["Fit"]),
     "C13": dict(gen=["Models"], drivers=["Iast"]),
     "C14": dict(gen=["Char"], drivers=["Char"]),
+    "C15": dict(gen=["Char", "Units"], drivers=[]),
     "C16": dict(gen=["Char"], drivers=["Char"]),
     "C19": dict(gen=["Char", "Models"], drivers=["Char"]),
     "C17": dict(gen=["Char"], drivers=["Char"]),
